@@ -103,7 +103,7 @@ func runRaceDiagnostic(c *lib.Ctx) {
 			var werr error
 			select {
 			case werr = <-done:
-			case <-time.After(5 * time.Minute):
+			case <-time.After(3 * time.Minute):
 				cmd.Process.Kill()
 				<-done
 				results[b].exit = "killed by the watchdog"
@@ -225,6 +225,11 @@ func raceWorker(args []string) int {
 		sc := genBBScenario(lib.NewRand(sd), fmt.Sprintf("race-%d", i), shapes[i%len(shapes)])
 		sc.Health = true
 		sc.MaxRetries = 0
+		for k := range sc.Shards {
+			if sc.Shards[k] == "4xx" {
+				sc.Shards[k] = "5xx" // no request cap here: keep clear of the known discover() loop
+			}
+		}
 		r := startBB(sc)
 		r.capN = 1 << 30
 		cl, err := newBBClient(sc, r, 2*time.Millisecond)
